@@ -4,6 +4,7 @@ import subprocess
 
 ID = "C09"
 ENTRY = "c09"
+GROUP = "acct"
 BIN = "vh_c09"
 COQ_TARGETS = ["Properties/C09.vo"]
 
